@@ -8,7 +8,7 @@ import json
 ALL_FEATURES = ["group_relevant", "group_appearance", "repeat_count", "repeat_relevant", "choice_extra", "choice_media", "parameters", "translations", "question_media",
                 "constraint_msg", "guidance", "dyn_default", "trigger", "or_other", "instance_attr", "settings", "entity", "external_instance", "audit", "table_list",
                 "last_saved", "namespaces", "search", "osm", "rank_and_multi", "from_file", "external_select", "select_from_repeat", "background_geopoint",
-                "range_decimal", "note_editable", "explicit_bind_type"]
+                "range_decimal", "note_editable", "explicit_bind_type", "nested_repeat_bind", "empty_sections", "deep_nesting"]
 
 
 def build(feats):
@@ -110,6 +110,18 @@ def build(feats):
         q.append({"type": "note", "name": "nte", "label": "NTE", "read_only": "no"})
     if "explicit_bind_type" in F:
         q.append({"type": "text", "name": "ebt", "label": "EBT", "bind::type": "int"})
+    if "nested_repeat_bind" in F:
+        q += [{"type": "begin group", "name": "hh", "label": "HH"},
+              {"type": "begin repeat", "name": "member", "label": "Member", "relevant": "${q2} > 1", "bind::foo": "rb"},
+              {"type": "text", "name": "mname", "label": "MName"}, {"type": "end repeat"}, {"type": "end group"}]
+    if "empty_sections" in F:
+        q += [{"type": "begin group", "name": "eg", "label": "EG"}, {"type": "end group"},
+              {"type": "begin group", "name": "og", "label": "OG"}, {"type": "begin repeat", "name": "er", "label": "ER"}, {"type": "end repeat"}, {"type": "end group"}]
+    if "deep_nesting" in F:
+        q += [{"type": "begin group", "name": "d1", "label": "D1"}, {"type": "begin repeat", "name": "d2", "label": "D2"},
+              {"type": "begin group", "name": "d3", "label": "D3", "appearance": "field-list"},
+              {"type": "integer", "name": "dq", "label": "DQ", "relevant": "${q2} > 2", "constraint": ". < 9", "required": "yes"},
+              {"type": "end group"}, {"type": "end repeat"}, {"type": "end group"}]
     cols = []
     for r in q:
         for k in r:
